@@ -65,7 +65,10 @@ func (r *Recorder) rec(id int, kind string, arg any, ctx z.Ctx) {
 	r.Calls = append(r.Calls, c)
 }
 
-func deepCopy(v reflect.Value) reflect.Value {
+func deepCopy(v reflect.Value) reflect.Value { return deepCopyMemo(v, map[uintptr]reflect.Value{}) }
+
+// (pointers that share a pointee in the original share one in the copy)
+func deepCopyMemo(v reflect.Value, seen map[uintptr]reflect.Value) reflect.Value {
 	switch v.Kind() {
 	case reflect.Slice:
 		if v.IsNil() {
@@ -73,15 +76,19 @@ func deepCopy(v reflect.Value) reflect.Value {
 		}
 		n := reflect.MakeSlice(v.Type(), v.Len(), v.Len())
 		for i := 0; i < v.Len(); i++ {
-			n.Index(i).Set(deepCopy(v.Index(i)))
+			n.Index(i).Set(deepCopyMemo(v.Index(i), seen))
 		}
 		return n
 	case reflect.Pointer:
 		if v.IsNil() {
 			return v
 		}
+		if c, ok := seen[v.Pointer()]; ok && c.Type() == v.Type() {
+			return c
+		}
 		n := reflect.New(v.Type().Elem())
-		n.Elem().Set(deepCopy(v.Elem()))
+		seen[v.Pointer()] = n
+		n.Elem().Set(deepCopyMemo(v.Elem(), seen))
 		return n
 	case reflect.Struct:
 		if v.Type() == reflect.TypeOf(time.Time{}) {
@@ -89,7 +96,7 @@ func deepCopy(v reflect.Value) reflect.Value {
 		}
 		n := reflect.New(v.Type()).Elem()
 		for i := 0; i < v.NumField(); i++ {
-			n.Field(i).Set(deepCopy(v.Field(i)))
+			n.Field(i).Set(deepCopyMemo(v.Field(i), seen))
 		}
 		return n
 	}
